@@ -795,3 +795,176 @@ func FlowsTo(src ssa.Value, isDst func(user ssa.Instruction, operand ssa.Value) 
 	visit(src)
 	return found
 }
+
+// ---------------------------------------------------------------- reaching definitions of local cells
+
+// ReachingStores returns the stores to the cell loaded by `load` that may
+// reach it inside load's own function (a store reaches the load if some path
+// from the store to the load contains no other store to the same cell), and
+// whether the load is also reachable from the function entry without any
+// store (zero value / value set by a closure).
+func ReachingStores(load *ssa.UnOp) (stores []*ssa.Store, fromEntry bool) {
+	if load.Op != token.MUL {
+		return nil, false
+	}
+	fn := load.Parent()
+	isStore := func(in ssa.Instruction) bool {
+		st, ok := in.(*ssa.Store)
+		return ok && st.Addr == load.X
+	}
+	var all []*ssa.Store
+	Instrs(fn, func(in ssa.Instruction) {
+		if isStore(in) {
+			all = append(all, in.(*ssa.Store))
+		}
+	})
+	for _, st := range all {
+		t, _ := PathQuery{
+			Target: func(in ssa.Instruction) bool { return in == ssa.Instruction(load) },
+			Avoid:  isStore,
+		}.From(fn, st)
+		if t != nil {
+			stores = append(stores, st)
+		}
+	}
+	t, _ := PathQuery{
+		Target: func(in ssa.Instruction) bool { return in == ssa.Instruction(load) },
+		Avoid:  isStore,
+	}.From(fn, nil)
+	fromEntry = t != nil
+	return
+}
+
+// ValuesAt resolves v to the set of values it may hold, looking through
+// phis, conversions and loads of local cells using *flow-sensitive* reaching
+// definitions inside the function (unlike Sources, which unions all stores).
+// Cells captured by closures fall back to all stores.
+func ValuesAt(v ssa.Value) []ssa.Value {
+	seen := map[ssa.Value]bool{}
+	var out []ssa.Value
+	var visit func(v ssa.Value)
+	visit = func(v ssa.Value) {
+		if v == nil || seen[v] {
+			return
+		}
+		seen[v] = true
+		switch x := v.(type) {
+		case *ssa.Phi:
+			for _, e := range x.Edges {
+				visit(e)
+			}
+		case *ssa.MakeInterface:
+			visit(x.X)
+		case *ssa.ChangeType:
+			visit(x.X)
+		case *ssa.ChangeInterface:
+			visit(x.X)
+		case *ssa.Convert:
+			visit(x.X)
+		case *ssa.UnOp:
+			if x.Op == token.MUL {
+				if a, ok := x.X.(*ssa.Alloc); ok {
+					st, fromEntry := ReachingStores(x)
+					if len(addrsOfCell(&Cell{a})) > 1 {
+						// captured: closures may write it too
+						for _, s := range StoresTo(&Cell{a}) {
+							visit(s.Val)
+						}
+						if fromEntry {
+							out = append(out, v)
+						}
+						return
+					}
+					for _, s := range st {
+						visit(s.Val)
+					}
+					if fromEntry || len(st) == 0 {
+						out = append(out, v)
+					}
+					return
+				}
+				if cell := CellOf(x.X); cell != nil {
+					for _, s := range StoresTo(cell) {
+						visit(s.Val)
+					}
+					return
+				}
+			}
+			out = append(out, v)
+		default:
+			out = append(out, v)
+		}
+	}
+	visit(v)
+	return out
+}
+
+// IsExtractOf reports whether v is `extract call #idx`.
+func IsExtractOf(v ssa.Value, call ssa.Value, idx int) bool {
+	e, ok := v.(*ssa.Extract)
+	return ok && e.Tuple == call && e.Index == idx
+}
+
+// OnlyValue returns the single value ValuesAt resolves to, or nil.
+func OnlyValue(v ssa.Value) ssa.Value {
+	vs := ValuesAt(v)
+	if len(vs) == 1 {
+		return vs[0]
+	}
+	return nil
+}
+
+// ErrNilEdge: if cond tests an error-typed value against nil, return the
+// value and which branch means "error is nil".
+func ErrNilEdge(iff *ssa.If) (errVal ssa.Value, nilBranch bool, ok bool) {
+	v, trueMeansNil, ok := NilTest(iff.Cond)
+	if !ok {
+		return nil, false, false
+	}
+	return v, trueMeansNil, true
+}
+
+// GuardedByNilErr reports whether instruction `at` is only reachable through
+// an edge on which errVal (resolved through local cells) is known nil, where
+// errVal is result #idx of call.
+func GuardedByNilResult(at ssa.Instruction, call ssa.Value, idx int) bool {
+	for _, e := range GuardingEdges(at) {
+		x, trueMeansNil, ok := NilTest(e.If.Cond)
+		if !ok || e.Branch != trueMeansNil {
+			continue
+		}
+		for _, s := range ValuesAt(x) {
+			if IsExtractOf(s, call, idx) {
+				return true
+			}
+		}
+	}
+	return false
+}
+
+// StatusCode: if v is the result of status.Error / status.Errorf with a
+// constant code, return the code number.
+func StatusCode(v ssa.Value) (int64, bool) {
+	call, ok := v.(*ssa.Call)
+	if !ok {
+		return 0, false
+	}
+	n := CalleeName(call)
+	if n != "google.golang.org/grpc/status.Error" && n != "google.golang.org/grpc/status.Errorf" {
+		return 0, false
+	}
+	return ConstInt(call.Call.Args[0])
+}
+
+// gRPC status code numbers used by rules.
+const (
+	CodeCanceled           = 1
+	CodeInvalidArgument    = 3
+	CodeNotFound           = 5
+	CodeAlreadyExists      = 6
+	CodeFailedPrecondition = 9
+	CodeAborted            = 10
+	CodeUnimplemented      = 12
+	CodeInternal           = 13
+	CodeUnavailable        = 14
+)
